@@ -285,10 +285,40 @@ func (r *c16Rig) checkReturnedTxn(set []types.V2Transaction, h types.Hash256) st
 			if txn.ID() != last.ID() {
 				return fmt.Sprintf("c16:returned-set-differs-from-broadcast|the renter reports success with transaction %v, the host broadcast %v for the same contract (the renter never compared what it signed with what came back)", last.ID(), txn.ID())
 			}
+			// same id, so same inputs and resolutions in the same order. What the renter itself signed (its
+			// inputs, a renewal's renter signature) reached the host intact - the host's pool accepted it - and
+			// must still be there in the transaction the renter hands to its caller as confirmable
+			renterAddr := r.u.As[1].Addr
+			for i := range txn.SiacoinInputs {
+				if txn.SiacoinInputs[i].Parent.SiacoinOutput.Address != renterAddr || i >= len(last.SiacoinInputs) {
+					continue
+				}
+				if !bytes.Equal(encOf(txn.SiacoinInputs[i].SatisfiedPolicy), encOf(last.SiacoinInputs[i].SatisfiedPolicy)) {
+					return fmt.Sprintf("c16:returned-set-lost-renter-input-signature|the renter reports success, but input %d of the returned transaction (an output of the renter's wallet) no longer carries the signature the renter made: the set cannot confirm", i)
+				}
+			}
+			for i := range txn.FileContractResolutions {
+				a, ok1 := txn.FileContractResolutions[i].Resolution.(*types.V2FileContractRenewal)
+				if !ok1 || i >= len(last.FileContractResolutions) {
+					continue
+				}
+				b, ok2 := last.FileContractResolutions[i].Resolution.(*types.V2FileContractRenewal)
+				if !ok2 || a.RenterSignature != b.RenterSignature {
+					return "c16:returned-set-lost-renewal-signature|the renter reports success, but the renewal in the returned transaction no longer carries the renter's renewal signature: the set cannot confirm"
+				}
+			}
 			return ""
 		}
 	}
 	return ""
+}
+
+func encOf(v types.EncoderTo) []byte {
+	var buf bytes.Buffer
+	e := types.NewEncoder(&buf)
+	v.EncodeTo(e)
+	e.Flush()
+	return buf.Bytes()
 }
 
 // checkFailure: the host recorded nothing and nobody keeps reservations.
@@ -607,7 +637,8 @@ func c16ForeignInputsRenter(u *univ.Universe, idx map[string]int) {
 	c16Trusting = false
 	defer func() { c16Trusting = saved }()
 	for _, kind := range []string{"form", "renew", "refresh-full", "refresh-partial"} {
-		for _, enough := range []bool{false, true} {
+		for _, variant := range []string{"short", "enough", "overflow"} {
+			enough := variant == "enough"
 			var r *c16Rig
 			var rr *renewRig
 			if kind == "form" {
@@ -635,6 +666,14 @@ func c16ForeignInputsRenter(u *univ.Universe, idx map[string]int) {
 				fake := types.SiacoinElement{ID: types.SiacoinOutputID{0xAB}, SiacoinOutput: types.SiacoinOutput{Address: r.w.Settings.WalletAddress, Value: types.Siacoins(500)}, StateElement: types.StateElement{LeafIndex: 1}}
 				lies = append(lies, types.V2SiacoinInput{Parent: fake, SatisfiedPolicy: types.SatisfiedPolicy{Policy: policy, Signatures: []types.Signature{{2}}}})
 			}
+			if variant == "overflow" {
+				// two fabricated inputs whose values do not fit into a Currency when added up
+				lies = nil
+				for i := byte(0); i < 2; i++ {
+					fake := types.SiacoinElement{ID: types.SiacoinOutputID{0xAC, i}, SiacoinOutput: types.SiacoinOutput{Address: r.w.Settings.WalletAddress, Value: types.MaxCurrency}, StateElement: types.StateElement{LeafIndex: uint64(i) + 1}}
+					lies = append(lies, types.V2SiacoinInput{Parent: fake, SatisfiedPolicy: types.SatisfiedPolicy{Policy: policy, Signatures: []types.Signature{{3 + i}}}})
+				}
+			}
 			h := &firstAnswerHost{hostKey: r.w.HostKey, accepted: make(chan bool, 1)}
 			switch kind {
 			case "form":
@@ -650,33 +689,42 @@ func c16ForeignInputsRenter(u *univ.Universe, idx map[string]int) {
 			cctx, cancel := context.WithTimeout(context.Background(), 5*time.Second)
 			cs := r.renter.n.CM.TipState()
 			var err error
-			switch kind {
-			case "form":
-				_, err = rhp.RPCFormContract(cctx, h, r.renter.n.CM, r.signer, cs, r.w.Prices, r.w.HostKey.PublicKey(), r.w.Settings.WalletAddress, proto4.RPCFormContractParams{
-					RenterPublicKey: r.u.As[1].Key.PublicKey(), RenterAddress: r.u.As[1].Addr,
-					Allowance: types.Siacoins(25), Collateral: types.Siacoins(20), ProofHeight: cs.Index.Height + 50,
-				})
-			case "renew":
-				_, err = rhp.RPCRenewContract(cctx, h, r.renter.n.CM, r.signer, cs, r.w.Prices, r.w.Settings.WalletAddress, rr.contract.Revision,
-					proto4.RPCRenewContractParams{ContractID: rr.contract.ID, Allowance: types.Siacoins(25), Collateral: types.Siacoins(20), ProofHeight: rr.contract.Revision.ProofHeight + 10})
-			case "refresh-full":
-				_, err = rhp.RPCRefreshContractFullRollover(cctx, h, r.renter.n.CM, r.signer, cs, r.w.Prices, r.w.Settings.WalletAddress, rr.contract.Revision,
-					proto4.RPCRefreshContractParams{ContractID: rr.contract.ID, Allowance: types.Siacoins(5), Collateral: types.Siacoins(4)})
-			default:
-				_, err = rhp.RPCRefreshContractPartialRollover(cctx, h, r.renter.n.CM, r.signer, cs, r.w.Prices, r.w.Settings.WalletAddress, rr.contract.Revision,
-					proto4.RPCRefreshContractParams{ContractID: rr.contract.ID, Allowance: types.Siacoins(30), Collateral: types.Siacoins(24)})
-			}
+			var panicked any
+			func() {
+				defer func() { panicked = recover() }()
+				switch kind {
+				case "form":
+					_, err = rhp.RPCFormContract(cctx, h, r.renter.n.CM, r.signer, cs, r.w.Prices, r.w.HostKey.PublicKey(), r.w.Settings.WalletAddress, proto4.RPCFormContractParams{
+						RenterPublicKey: r.u.As[1].Key.PublicKey(), RenterAddress: r.u.As[1].Addr,
+						Allowance: types.Siacoins(25), Collateral: types.Siacoins(20), ProofHeight: cs.Index.Height + 50,
+					})
+				case "renew":
+					_, err = rhp.RPCRenewContract(cctx, h, r.renter.n.CM, r.signer, cs, r.w.Prices, r.w.Settings.WalletAddress, rr.contract.Revision,
+						proto4.RPCRenewContractParams{ContractID: rr.contract.ID, Allowance: types.Siacoins(25), Collateral: types.Siacoins(20), ProofHeight: rr.contract.Revision.ProofHeight + 10})
+				case "refresh-full":
+					_, err = rhp.RPCRefreshContractFullRollover(cctx, h, r.renter.n.CM, r.signer, cs, r.w.Prices, r.w.Settings.WalletAddress, rr.contract.Revision,
+						proto4.RPCRefreshContractParams{ContractID: rr.contract.ID, Allowance: types.Siacoins(5), Collateral: types.Siacoins(4)})
+				default:
+					_, err = rhp.RPCRefreshContractPartialRollover(cctx, h, r.renter.n.CM, r.signer, cs, r.w.Prices, r.w.Settings.WalletAddress, rr.contract.Revision,
+						proto4.RPCRefreshContractParams{ContractID: rr.contract.ID, Allowance: types.Siacoins(30), Collateral: types.Siacoins(24)})
+				}
+			}()
 			cancel()
-			select {
-			case <-h.accepted:
-			case <-time.After(6 * time.Second):
+			if panicked == nil {
+				select {
+				case <-h.accepted:
+				case <-time.After(6 * time.Second):
+				}
 			}
 			run.Add(1, 1, 1, 1)
-			run.Distinct("foreign-input-renter", kind, enough, err == nil)
-			if err == nil {
+			run.Distinct("foreign-input-renter", kind, variant, err == nil, panicked != nil)
+			if panicked != nil {
+				after := r.renter.footprint()
+				run.Violate("c16:client-panics-on-host-inputs:"+kind, fmt.Sprintf("%s: the host answers with inputs (%s) and the client panics (%v) instead of failing with an error; renter wallet before %s, after %s", kind, variant, panicked, before, after), map[string]any{"rpc": kind, "variant": variant})
+			} else if err == nil {
 				run.Violate("c16:foreign-input-accepted:renter:"+kind, kind+": an attempt in which the host listed an output of the renter's own wallet among its inputs succeeded", nil)
 			} else if after := r.renter.footprint(); after != before {
-				run.Violate("c16:foreign-reservation-released:renter:"+kind, fmt.Sprintf("%s: the host listed, among its inputs, an output of the renter's wallet that the renter has reserved for something else; the attempt failed (%v) and the renter released that reservation too: renter wallet before %s, after %s", kind, err, before, after), map[string]any{"rpc": kind, "hostCoversItsShare": enough})
+				run.Violate("c16:foreign-reservation-released:renter:"+kind, fmt.Sprintf("%s: the host listed, among its inputs, an output of the renter's wallet that the renter has reserved for something else; the attempt failed (%v) and the renter released that reservation too: renter wallet before %s, after %s", kind, err, before, after), map[string]any{"rpc": kind, "variant": variant})
 			}
 			r.close()
 		}
